@@ -29,6 +29,9 @@ def configs(tier):
             dict(label='3rows P4', n_rows=3, sensors=[(P, 4, 2)]),
             dict(label='6rows P1 V1', n_rows=6, sensors=[(P, 1, 2), (V, 1, 2)]),
             dict(label='5rows P2 V1, time+time_step arbitrary', n_rows=5, sensors=[(P, 2, 2), (V, 1, 2)], havoc_add=True, sample_mod=0),
+            # deepest bounds that finish in minutes (measured: 75 k and 49 k paths; 5.5 and 3 min)
+            dict(label='5rows P2 V2', n_rows=5, sensors=[(P, 2, 2), (V, 2, 2)], sample_mod=499),
+            dict(label='6rows P2 V1 +increments', n_rows=6, sensors=[(P, 2, 2), (V, 1, 2)], with_increments=True, sample_mod=499),
         ]
     return c
 
